@@ -1,6 +1,193 @@
-(** placeholder while the proofs are being written *)
-From Coq Require Import List NArith.
+(** C20 -- BTP-U messages round-trip and segmented transfers reassemble.
+
+    "Every BTP-U message set the agent builds (bundle PDU, transfer
+    segment/end with length hints, padding) decodes to the same messages,
+    with declared lengths equal to actual lengths, and decoding then
+    re-encoding any valid frame reproduces it.  A bundle that does not fit
+    the MTU is sent as segments each within the MTU whose data, concatenated
+    by index, equals the bundle, and a receiver that gets each segment once
+    in any order queues exactly that bundle once."
+
+    Model: Model/Btpu.v (tied to /repo by harness/check_C20.py).
+    Hypotheses are boolean predicates of the model ([wf_msgb], [wf_frameb],
+    [mtu_feasible], [fits], [send_okb]); each has a non-vacuity [Example]
+    beside the lemma in Proofs/Btpu*Proofs.v.
+
+    Guards, and what lies behind them on the unchanged code:
+      - total message length < 2^20 ([wf_msgb], [send_okb], [blen data <? LEN_MOD]):
+        without it the declared length is wrong -- [C20_declared_lengths_refuted]
+        (known finding: 20-bit length field overflow);
+      - [mtu_feasible mtu] (mtu > 18): otherwise the real sender loops forever;
+      - field widths (octets < 256, xfer_num and indices < 2^32, hint data <= 255):
+        the real code raises outside them;
+      - the receiver clause quantifies over this sender's segments, which are
+        always >= 2 ([C20_send_ge_2_segments]); a peer's single-segment
+        transfer is never completed ([C20_note_end_index_zero_never_completes]). *)
+From Coq Require Import NArith List Permutation.
 From DTN Require Import Lib.Bytes Model.Btpu.
-Theorem C20_placeholder : blen nil = 0%N.
-Proof. reflexivity. Qed.
-Print Assumptions C20_placeholder.
+From DTN Require Import Proofs.BtpuProofs Proofs.BtpuSendProofs Proofs.BtpuRecvProofs Proofs.BtpuTopProofs.
+Import ListNotations.
+Local Open Scope N_scope.
+
+(** ** Codec *)
+
+Theorem C20_roundtrip : forall (m : msg) (rest : bytes),
+  wf_msgb m = true -> decode_msg (encode_msg m ++ rest) = Some (m, rest).
+Proof. exact decode_msg_encode. Qed.
+Print Assumptions C20_roundtrip.
+
+(** Full statement: for every message the agent builds, the length field
+    equals the number of octets that follow the 4-octet header.  Proved under
+    the guard "hints + payload < 2^20" (part of [wf_msgb]); without it the
+    statement is false, see [C20_declared_lengths_refuted]. *)
+Theorem C20_declared_lengths_partial : forall (m : msg) (rest : bytes),
+  wf_msgb m = true ->
+  declared_len (encode_msg m ++ rest) = Some (blen (encode_hints (m_hints m)) + blen (m_body m))
+  /\ blen (encode_msg m) = 4 + (blen (encode_hints (m_hints m)) + blen (m_body m)).
+Proof. exact declared_len_encode. Qed.
+Print Assumptions C20_declared_lengths_partial.
+
+Theorem C20_declared_lengths_refuted :
+  exists d : bytes,
+    wf_bytesb d = true /\ blen d = 1048576
+    /\ declared_len (encode_msg (mk_bundle d)) = Some 0
+    /\ option_map (fun f => (map (fun m => blen (m_body m)) (f_msgs f), blen (f_pad f)))
+                  (decode_frame (encode_frame (mkFrame [mk_bundle d] [])))
+       = Some ([0], 1048576).
+Proof. exact declared_len_refuted. Qed.
+Print Assumptions C20_declared_lengths_refuted.
+
+Theorem C20_frame_roundtrip : forall f : frame,
+  wf_frameb f = true -> decode_frame (encode_frame f) = Some f.
+Proof. exact decode_frame_encode. Qed.
+Print Assumptions C20_frame_roundtrip.
+
+(** Every octet string that decodes at all re-encodes to itself (and what
+    it decodes to is well-formed, so decoding is injective on valid frames). *)
+Theorem C20_reencode : forall (bs : bytes) (f : frame),
+  wf_bytesb bs = true -> decode_frame bs = Some f -> encode_frame f = bs /\ wf_frameb f = true.
+Proof. exact decode_frame_inv. Qed.
+Print Assumptions C20_reencode.
+
+(** ** What the sender builds decodes to what it built *)
+
+Theorem C20_sent_unsegmented_partial : forall (mtu : option N) (xid : N) (data : bytes),
+  fits mtu (blen data) = true -> wf_bytesb data = true -> blen data <? LEN_MOD = true ->
+  let f := encode_frame (mkFrame [mk_bundle data] []) in
+  send_transfer mtu xid data = [f]
+  /\ decode_frame f = Some (mkFrame [mk_bundle data] [])
+  /\ declared_len f = Some (blen data) /\ blen f = 4 + blen data
+  /\ (data <> [] -> view (mk_bundle data) = CBundle data).
+Proof. exact sent_unsegmented. Qed.
+Print Assumptions C20_sent_unsegmented_partial.
+
+Theorem C20_sent_segments_decode : forall (mtu xid : N) (data : bytes),
+  send_okb mtu xid data = true ->
+  let hs := xfer_hints (blen data) in
+  send_transfer (Some mtu) xid data = map (seg_frame hs xid) (segments hs mtu data)
+  /\ Forall (fun s =>
+       decode_frame (seg_frame hs xid s) = Some (mkFrame [seg_msg hs xid s] [])
+       /\ view (seg_msg hs xid s)
+          = (if seg_last s then CEnd xid (seg_idx s) (seg_data s) else CSeg xid (seg_idx s) (seg_data s))
+       /\ declared_len (seg_frame hs xid s) = Some (blen (seg_frame hs xid s) - 4)
+       /\ m_hints (seg_msg hs xid s) = hs)
+     (segments hs mtu data).
+Proof. exact sent_segments. Qed.
+Print Assumptions C20_sent_segments_decode.
+
+(** ** Segmentation: for ALL bundle lengths and MTUs *)
+
+Theorem C20_within_mtu : forall (mtu xid : N) (data : bytes),
+  mtu_feasible mtu = true \/ fits (Some mtu) (blen data) = true ->
+  Forall (fun f => blen f <= mtu) (send_transfer (Some mtu) xid data).
+Proof. exact within_mtu. Qed.
+Print Assumptions C20_within_mtu.
+
+(** For any hint list in place of the code's one total-length hint. *)
+Theorem C20_within_mtu_any_hints : forall (hs : list hint) (mtu xid : N) (data : bytes),
+  mtu_feasible_h hs mtu = true ->
+  Forall (fun f => blen f <= mtu) (send_transfer_h hs (Some mtu) xid data).
+Proof. exact within_mtu_h. Qed.
+Print Assumptions C20_within_mtu_any_hints.
+
+(** [shape 0 segs]: indices 0,1,2,... in order, every segment non-empty,
+    the end marker exactly on the last one. *)
+Theorem C20_concat : forall (mtu xid : N) (data : bytes),
+  mtu_feasible mtu = true -> fits (Some mtu) (blen data) = false ->
+  let hs := xfer_hints (blen data) in
+  let segs := segments hs mtu data in
+  send_transfer (Some mtu) xid data = map (seg_frame hs xid) segs
+  /\ shape 0 segs
+  /\ concat (map seg_data segs) = data
+  /\ (2 <= length segs)%nat.
+Proof. exact segmented_send. Qed.
+Print Assumptions C20_concat.
+
+Theorem C20_send_ge_2_segments : forall (hs : list hint) (mtu : N) (data : bytes),
+  mtu_feasible_h hs mtu = true -> fits (Some mtu) (blen data) = false ->
+  (2 <= length (segments hs mtu data))%nat.
+Proof. exact segments_ge2. Qed.
+Print Assumptions C20_send_ge_2_segments.
+
+(** ** Reassembly: every arrival order, each frame exactly once *)
+
+(** From any receiver state [st] that has no transfer in progress under the
+    same (conversation, transfer number): after all frames the queue and the
+    emitted signals have grown by exactly this bundle, the transfer entry is
+    gone, and after any proper prefix of the arrivals nothing was queued or
+    signalled. *)
+Theorem C20_reassembly_any_order_once :
+  forall (mtu xid conv : N) (st : rx) (data : bytes) (p : list bytes),
+  send_okb mtu xid data = true ->
+  plookup (conv, xid) (r_prog st) = None ->
+  Permutation p (send_transfer (Some mtu) xid data) ->
+  let fin := fold_left (recv_frame conv) p st in
+  r_queue fin = r_queue st ++ [(r_next st, data)]
+  /\ r_signals fin = r_signals st ++ [(r_next st, blen data)]
+  /\ plookup (conv, xid) (r_prog fin) = None
+  /\ (forall p1 p2 : list bytes, p = p1 ++ p2 -> p2 <> [] ->
+        r_queue (fold_left (recv_frame conv) p1 st) = r_queue st
+        /\ r_signals (fold_left (recv_frame conv) p1 st) = r_signals st).
+Proof. exact reassembly_any_order_once. Qed.
+Print Assumptions C20_reassembly_any_order_once.
+
+(** The same for any hint list. *)
+Theorem C20_reassembly_any_hints :
+  forall (hs : list hint) (mtu xid conv : N) (st : rx) (data : bytes) (p : list bytes),
+  xfer_okb hs mtu xid data = true ->
+  plookup (conv, xid) (r_prog st) = None ->
+  Permutation p (send_transfer_h hs (Some mtu) xid data) ->
+  let fin := fold_left (recv_frame conv) p st in
+  r_queue fin = r_queue st ++ [(r_next st, data)]
+  /\ r_signals fin = r_signals st ++ [(r_next st, blen data)]
+  /\ plookup (conv, xid) (r_prog fin) = None
+  /\ (forall p1 p2 : list bytes, p = p1 ++ p2 -> p2 <> [] ->
+        r_queue (fold_left (recv_frame conv) p1 st) = r_queue st
+        /\ r_signals (fold_left (recv_frame conv) p1 st) = r_signals st).
+Proof. exact reassembly_h. Qed.
+Print Assumptions C20_reassembly_any_hints.
+
+(** ** Noted behaviour outside C20's quantifier (what the guards exclude) *)
+
+Theorem C20_note_end_index_zero_never_completes :
+  let f := seg_frame (xfer_hints 3) 9 (0, [1; 2; 3], true) in
+  decode_frame f = Some (mkFrame [mk_seg (xfer_hints 3) true 9 0 [1; 2; 3]] [])
+  /\ queued (recv_frame 1 rx_init f) = []
+  /\ map (fun e => (fst e, x_end (snd e), x_segs (snd e))) (r_prog (recv_frame 1 rx_init f))
+     = [((1, 9), Some 0, [(0, [1; 2; 3])])].
+Proof. exact note_end_index_zero_never_completes. Qed.
+Print Assumptions C20_note_end_index_zero_never_completes.
+
+Theorem C20_note_zero_length_bundle_not_queued :
+  send_transfer None 0 [] = [[2; 0; 0; 0]]
+  /\ decode_frame [2; 0; 0; 0] = Some (mkFrame [mk_bundle []] [])
+  /\ view (mk_bundle []) = COther
+  /\ queued (recv_frame 1 rx_init [2; 0; 0; 0]) = [].
+Proof. exact note_zero_length_bundle_not_queued. Qed.
+Print Assumptions C20_note_zero_length_bundle_not_queued.
+
+Theorem C20_note_infeasible_mtu :
+  mtu_feasible 18 = false
+  /\ map seg_data (segments (xfer_hints 14) 18 (mkdata 1 14)) = repeat [] 14.
+Proof. exact note_infeasible_mtu. Qed.
+Print Assumptions C20_note_infeasible_mtu.
